@@ -361,7 +361,7 @@ def selections(ctx: Ctx, td: Path, env, log: Path) -> None:
              (["--enable-all", "--ignore", "#plugcat"], set()), (["--enable", "#plugcat"], {"PLG100", "PLG101", "PLG102", "PLG103", "SOL100"}),
              (["--disable-all", "--enable", "#plugcat"], {"PLG100", "PLG101", "PLG102", "PLG103", "SOL100"}),
              (["--enable-all", "--disable", "#plugcat", "--enable", "PLG103"], {"PLG103"}), (["--enable", "PLG102", "--disable", "#plugcat"], {"PLG102"}),
-             (["--disable", "#plugcat", "--enable-all"], set())]
+             (["--disable", "#plugcat", "--enable-all"], {"PLG100", "PLG101", "PLG102", "PLG103", "SOL100"})]     # a later --enable-all clears earlier disables (README)
     for extra, want in cases:
         if log.exists():
             log.unlink()
